@@ -194,3 +194,12 @@ Section Spec.
     | _ => json_at_with json_of [] t v
     end.
 End Spec.
+
+(* which case of the head of json_of applies to a type *)
+Inductive hcase := HTrusted (c : N) | HTime | HError | HPlain.
+
+Definition head_case (f : showfn) (t : ty) : hcase :=
+  match trusted_case f t with
+  | Some c => HTrusted c
+  | None => if flag t w_Time then HTime else if flag t i_Error then HError else HPlain
+  end.
